@@ -90,6 +90,7 @@ class Ctx:
         self.actions_covered = {}
         self._pool = None
         self.findings = load_findings()
+        self.last_drift_details = []
 
     # -- scratch ----------------------------------------------------------
     def close(self):
@@ -214,6 +215,7 @@ class Ctx:
             return res
 
         fails, drifts = [], []
+        self.last_drift_details = []
         with cf.ThreadPoolExecutor(max_workers=len(chunks)) as ex:
             try:
                 results = list(ex.map(one, enumerate(chunks)))
@@ -228,6 +230,7 @@ class Ctx:
             for v in res.infos:
                 if v and v[0] == "drift":
                     drifts.append(v[1])
+                    self.last_drift_details.append(tuple(v[1:]))
         self.records_validated += len(records)
         self.tlc_runs.append({"module": module, "records": len(records), "chunks": len(chunks),
                               "fails": len(fails), "drift": len(drifts)})
